@@ -173,6 +173,15 @@ def gen_together(r, ncases, parallel):
             ops.append(_fan_line(fid, "hwmon", r.chance(0.15), r.chance(0.3), True, r.chance(0.2), q, r.range(5, 90)) + (f" drift={drift}" if drift else ""))
         order = r.shuffle(ids)
         delays = ",".join(str(r.range(0, 3000)) for _ in order)
+        if r.chance(0.3):
+            # one more controller, whose data are stored, dies on its start-up path (its fan's driver panics when the
+            # stored curve is attached) while the others are being analysed / wait for their turn: whatever is done about
+            # the fault, the others' turns stay exclusive (seed C16g: a "safe" release of the start-up lock by the dying
+            # controller released the lock somebody else was holding)
+            ops.append(f"su.fan fan=tp kind=hwmon cfgmap=1 panicattach_us={r.range(2000, 25000)}")
+            ops.append("su.putrpm fan=tp data=0:x0000000000000000,100:x408f400000000000,255:x40a3880000000000")
+            order = order + ["tp"]
+            delays += ",0"
         ops.append(f"su.together fans={','.join(order)} delays_us={delays}")
         k = r.below(5)
         if k == 4:
